@@ -231,6 +231,10 @@ func Show(v *V) string {
 }
 
 func show(b *strings.Builder, v *V) {
+	if 1<<15 < b.Len() {
+		// shared structure can print exponentially large
+		panic(&Error{Class: "limit", Msg: "printed value too large"})
+	}
 	switch v.K {
 	case KInt:
 		b.WriteString(strconv.FormatInt(v.I, 10))
